@@ -125,6 +125,7 @@ impl SystemModule {
             let _res = iface.lock().unwrap().close();
         }
 
+        self.is_opened = false;
         Ok(())
     }
 
